@@ -124,6 +124,22 @@ func (w *c04World) run(h *c04H) {
 				break
 			}
 		}
+	case "rmnextadd":
+		// removes a later sibling (it still runs for this event) and, in the same call, registers a handler in its own
+		// set under a name the event does not have: whatever storage the removal freed is not the sibling's any more
+		for i := h.id + 1; i < len(w.hs); i++ {
+			if p := w.hs[i]; p.set == h.set && p.name == h.name && !p.removed {
+				w.remove(p)
+				break
+			}
+		}
+		if len(w.hs) < 16 {
+			via := "Handle"
+			if h.set == "bg" {
+				via = "HandleBG"
+			}
+			w.register(h.set, via, "baz", "", "same")
+		}
 	case "addsame":
 		if len(w.hs) < 16 {
 			via := "Handle"
@@ -766,10 +782,86 @@ func c04OverlapScenario(nbg, nev int) *explore.Scenario {
 	return sc
 }
 
+// c04BusyScenario: n events SLOW whose one background handler takes ten minutes of virtual time, then, while all n are
+// still running, one event NOTE with a foreground and a background handler: both run once, and so does every SLOW one.
+func c04BusyScenario(n int) *explore.Scenario {
+	sc := &explore.Scenario{
+		Family: "handlers-busy",
+		Name:   fmt.Sprintf("handlers-busy/slow-events=%d", n),
+		Params: map[string]interface{}{"slow-events": n},
+		Opt:    vx.Options{MaxSteps: 400000},
+	}
+	sc.Main = func(env *vx.Env) {
+		s, err := StartSession(env, "me", nil, nil)
+		if err != nil {
+			return
+		}
+		s.C.HandleBG("slow", client.HandlerFunc(func(conn *client.Conn, line *client.Line) {
+			vx.Observe("ev", "start slow "+line.Text())
+			vx.Sleep(10 * time.Minute)
+			vx.Observe("ev", "end slow "+line.Text())
+		}))
+		s.C.HandleBG("note", client.HandlerFunc(func(conn *client.Conn, line *client.Line) { vx.Observe("ev", "run bg-note") }))
+		s.C.HandleFunc("note", func(conn *client.Conn, line *client.Line) { vx.Observe("ev", "run fg-note") })
+		var lines []string
+		for e := 0; e < n; e++ {
+			lines = append(lines, fmt.Sprintf(":o!u@h SLOW :e%d", e))
+		}
+		lines = append(lines, ":o!u@h NOTE :x")
+		s.VC.SendLines(lines...)
+		vx.Quiesce()
+		vx.Observe("ev", "quiet")
+		vx.Sleep(20 * time.Minute)
+		vx.Quiesce()
+		s.End()
+	}
+	sc.Check = func(o *vx.Outcome) []explore.Finding {
+		if fs := stdOutcome(o); fs != nil {
+			return fs
+		}
+		ev := o.Log("ev")
+		cnt := map[string]int{}
+		quiet := false
+		var fs []explore.Finding
+		for _, r := range ev {
+			if r == "quiet" {
+				quiet = true
+				for _, k := range []string{"run bg-note", "run fg-note"} {
+					if cnt[k] != 1 {
+						fs = append(fs, explore.Finding{Oracle: "invocation-count", Msg: fmt.Sprintf("%q seen %d times once the client had gone quiet behind %d events whose background handlers were still running, expected 1", k, cnt[k], n)})
+					}
+				}
+				continue
+			}
+			cnt[r]++
+		}
+		if !quiet {
+			return fs
+		}
+		for e := 0; e < n; e++ {
+			for _, k := range []string{"start", "end"} {
+				if c := cnt[fmt.Sprintf("%s slow e%d", k, e)]; c != 1 {
+					fs = append(fs, explore.Finding{Oracle: "invocation-count", Msg: fmt.Sprintf("background handler of SLOW e%d: %q seen %d times, expected 1", e, k, c)})
+					if len(fs) > 4 {
+						return fs
+					}
+				}
+			}
+		}
+		for _, k := range []string{"run bg-note", "run fg-note"} {
+			if cnt[k] != 1 {
+				fs = append(fs, explore.Finding{Oracle: "invocation-count", Msg: fmt.Sprintf("%q seen %d times in the whole session, expected 1", k, cnt[k])})
+			}
+		}
+		return fs
+	}
+	return sc
+}
+
 func init() {
 	Register(&Prop{
 		ID:   "C04",
-		Rule: "all histories up to depth 5 (quick) / 6 (thorough) that end in an event, over 20 letters = register fg/bg (Handle, HandleFunc, HandleBG) under foo/FOO/Foo/baz, 8 scripted handlers (remove self, remove previous sibling, add to own set, add to other set; in scripted histories also: remove a later sibling), Remove of the first/second/last registered handler, events FOO and BAZ; each history runs on a fresh real session and per-handler invocation counts are compared with the multiset model after every event; plus registry changes made by a slow foreground handler while the next line is already received and queued (add / remove / replace a fg / bg handler for it after 0, 1 ms, 1 s, 1 h of virtual time; also with forty other lines queued in between, more than the input queue holds); plus three foreground and two background handlers (other spellings, one removing itself, one adding a handler) on each of REGISTER, CONNECTED and DISCONNECTED over two connections; plus scripted histories, racing Handle/HandleBG/Remove calls from another goroutine (against a dispatch in flight, and two calls against each other: two first registrations of a name, registration against removal of the only handler, two removals), and back-to-back events whose background dispatches overlap, under K<=2 schedule deviations; distinct = distinct histories",
+		Rule: "all histories up to depth 5 (quick) / 6 (thorough) that end in an event, over 20 letters = register fg/bg (Handle, HandleFunc, HandleBG) under foo/FOO/Foo/baz, 8 scripted handlers (remove self, remove previous sibling, add to own set, add to other set; in scripted histories also: remove a later sibling, and remove a later sibling and register under another name in the same call), Remove of the first/second/last registered handler, events FOO and BAZ; each history runs on a fresh real session and per-handler invocation counts are compared with the multiset model after every event; plus registry changes made by a slow foreground handler while the next line is already received and queued (add / remove / replace a fg / bg handler for it after 0, 1 ms, 1 s, 1 h of virtual time; also with forty other lines queued in between, more than the input queue holds); plus three foreground and two background handlers (other spellings, one removing itself, one adding a handler) on each of REGISTER, CONNECTED and DISCONNECTED over two connections; plus scripted histories, racing Handle/HandleBG/Remove calls from another goroutine (against a dispatch in flight, and two calls against each other: two first registrations of a name, registration against removal of the only handler, two removals), and back-to-back events whose background dispatches overlap, under K<=2 schedule deviations; plus a hundred events whose background handler is still running when the next arrives, then one more event (default schedules); distinct = distinct histories",
 		Assumptions: []string{
 			"sequential histories run under the default scheduler with quiescence between top-level operations; interleavings are the subject of the handlers-concurrent / handlers-race families",
 			"each Remover is used at most once (guarded by the harness); a handler added to the other set during an event may or may not see that event",
@@ -807,6 +899,8 @@ func init() {
 				// a handler removes a later sibling of the same event (it still runs for this event, not for the next)
 				"rmnext-of-four":        {R("fg", "Handle", "foo", "rmnext"), R("fg", "Handle", "foo", ""), R("fg", "Handle", "foo", ""), R("fg", "Handle", "foo", ""), E("FOO"), E("FOO"), E("FOO")},
 				"bg-rmnext-of-four":     {R("bg", "HandleBG", "foo", ""), R("bg", "HandleBG", "foo", "rmnext"), R("bg", "HandleBG", "foo", ""), R("bg", "HandleBG", "foo", ""), E("FOO"), E("FOO")},
+				"rmnextadd-of-three":    {R("fg", "Handle", "foo", "rmnextadd"), R("fg", "Handle", "foo", ""), R("fg", "Handle", "foo", ""), E("FOO"), E("BAZ"), E("FOO")},
+				"bg-rmnextadd-of-three": {R("bg", "HandleBG", "foo", "rmnextadd"), R("bg", "HandleBG", "foo", ""), R("bg", "HandleBG", "foo", ""), E("FOO"), E("BAZ"), E("FOO")},
 				"toplevel-remove-first": {R("fg", "Handle", "foo", ""), R("fg", "Handle", "foo", ""), R("fg", "Handle", "foo", ""), {Kind: "rm", Idx: 0}, E("FOO"), {Kind: "rm", Idx: -1}, E("FOO")},
 			}
 			for n, h := range sel {
@@ -820,6 +914,8 @@ func init() {
 			// many background handlers make one dispatch long enough to overlap the next event's under the round-robin default
 			jobs = append(jobs, ExploreJob("C04", ExploreSpec{Sc: c04OverlapScenario(12, 3), Variants: []int{1, 2, 3}, Budgets: []explore.Budget{{0, 0}, {1, 0}}, Cache: true}, 60))
 			jobs = append(jobs, ExploreJob("C04", ExploreSpec{Sc: c04OverlapScenario(24, 4), Variants: []int{3}, Budgets: []explore.Budget{{0, 0}, {1, 0}}, Cache: true}, 60))
+			// a hundred events whose background handler is still running (ten minutes of virtual time) when the next event arrives
+			jobs = append(jobs, ExploreJob("C04", ExploreSpec{Sc: c04BusyScenario(100), Variants: []int{1, 2, 3}, Budgets: []explore.Budget{{0, 0}}, Cache: true}, 60))
 			for _, cfg := range [][2]int{{2, 2}, {2, 3}, {3, 4}} {
 				bs := []explore.Budget{{0, 0}, {1, 0}, {2, 0}}
 				if tier == "thorough" {
